@@ -29,6 +29,7 @@ import Driver.ReqCtx
 import Driver.ReqLives
 import Driver.SMTImpl
 import Driver.CodecNFC
+import Driver.Convert
 
 def main (args : List String) : IO UInt32 := do
   match args with
@@ -64,6 +65,7 @@ def main (args : List String) : IO UInt32 := do
   | ["C17LIVES"] => Driver.ReqLives.main; return 0
   | ["C10IMPL"] => Driver.SMTImpl.main; return 0
   | ["C08NFC"] => Driver.CodecNFC.main; return 0
+  | ["C03CONV"] => Driver.Convert.main; return 0
   | ["C17"] => Driver.ReqResp.main; return 0
   | ["C01"] => Driver.BFT.main; return 0
   | _ => IO.eprintln "usage: ldriver <property-id>"; return 2
